@@ -80,10 +80,79 @@ def remove_wrappers():
 # ----------------------------------------------------------------------------------------------
 # callback families (mirror fn2 / predf / keyf / fnN of pure/Itertools.v)
 # ----------------------------------------------------------------------------------------------
-FN2 = [lambda a, b: a + b, lambda a, b: a * b, lambda a, b: max(a, b), lambda a, b: a, lambda a, b: b,
-       lambda a, b: 2 * a + b, lambda a, b: a - b]
-PRED = [lambda x: x % 2 == 1, lambda x: x < 1, lambda x: x < 2, lambda x: True, lambda x: False, lambda x: x == 1]
-KEYF = [None, lambda x: x % 2, lambda x: 0, lambda x: x // 2, lambda x: 1 if x == 1 else 0]
+# ---- element domains ----------------------------------------------------------------------------
+# integer mode (the model's domain): ints, and None transported as NONE_CODE (-99) - callbacks behave as Python does
+# (arithmetic on None raises TypeError, None is falsy).  object mode (stdlib differential only, no model): sentinel-like
+# values - None, False / 0 / 0.0 (equal but distinct), "", (), an object equal to nothing, 1.
+OBJMODE = [False]
+
+
+class Odd:
+    """equal to nothing (not even itself), truthy, hashable by identity"""
+
+    def __eq__(self, other):
+        return False
+
+    def __ne__(self, other):
+        return True
+
+    __hash__ = object.__hash__
+
+    def __repr__(self):
+        return "<Odd>"
+
+
+ODD = Odd()
+OBJ_ALPHABET = [None, False, 0, 0.0, "", (), ODD, 1]      # object-mode element code i -> OBJ_ALPHABET[i]
+
+
+def dec(l):
+    """element codes -> the Python values handed to the functions"""
+    if OBJMODE[0]:
+        return [OBJ_ALPHABET[x] for x in l]
+    return [None if x == NONE_CODE else x for x in l]
+
+
+class ModeTable:
+    def __init__(self, ints, objs):
+        self.ints, self.objs = ints, objs
+
+    def __getitem__(self, i):
+        t = self.objs if OBJMODE[0] else self.ints
+        return t[i % len(t)] if OBJMODE[0] else t[i]
+
+    def __len__(self):
+        return len(self.objs if OBJMODE[0] else self.ints)
+
+
+def _coalesce(a, b):
+    return b if b is not None else a
+
+
+COLLISION = [False]     # an arithmetic callback produced the integer that transports None: outside the codec's domain
+
+
+def _g(fn):
+    def guarded(a, b):
+        r = fn(a, b)
+        if r == NONE_CODE:
+            COLLISION[0] = True
+        return r
+    return guarded
+
+
+FN2 = ModeTable(
+    [_g(lambda a, b: a + b), _g(lambda a, b: a * b), lambda a, b: max(a, b), lambda a, b: a, lambda a, b: b,
+     _g(lambda a, b: 2 * a + b), _g(lambda a, b: a - b), _coalesce],
+    [lambda a, b: a + b, _coalesce, lambda a, b: a, lambda a, b: b, lambda a, b: (a, b) if not isinstance(a, tuple) else a + (b,)])
+PRED = ModeTable(
+    [lambda x: x % 2 == 1, lambda x: x < 1, lambda x: x < 2, lambda x: True, lambda x: False, lambda x: x == 1,
+     lambda x: x is None],
+    [lambda x: x is None, lambda x: x == 0, lambda x: bool(x), lambda x: True, lambda x: False, lambda x: x is False])
+KEYF = ModeTable(
+    [None, lambda x: x % 2, lambda x: 0, lambda x: x // 2, lambda x: 1 if x == 1 else 0],
+    [None, lambda x: type(x).__name__, lambda x: bool(x), lambda x: x == 0, lambda x: None])
+NONE_SAFE = {"fn2": (-1, 0, 3, 4, 7), "pred": (3, 4, 5, 6), "key": (0, 2, 4), "fnn": (2, 3)}
 
 
 def _sum(*a):
@@ -104,7 +173,9 @@ def _horner(*a):
     return r
 
 
-FNN = [_sum, _prod, lambda *a: len(a), lambda *a: a[0] if a else -1, _horner]
+FNN = ModeTable([_sum, _prod, lambda *a: len(a), lambda *a: a[0] if a else -1, _horner],
+                [lambda *a: len(a), lambda *a: a[0] if a else None, lambda *a: a, lambda *a: sum(1 for x in a if x is None),
+                 lambda *a: a.count(0)])
 
 
 def amk(f, log_call=False):
@@ -145,6 +216,7 @@ def _sgen(l):
 
 def mk_src(src, variant: int):
     kind, l = src
+    l = dec(l)
     if kind == 0:
         v = variant % 4
         return list(l) if v == 0 else tuple(l) if v == 1 else iter(list(l)) if v == 2 else _sgen(l)
@@ -170,6 +242,7 @@ class AIterator:
 def mk_iter_obj(src, variant: int):
     """ONE iterator object for a store entry (kind 0: synchronous iterator, kind 1: asynchronous iterator)"""
     kind, l = src
+    l = dec(l)
     if kind == 0:
         return iter(list(l)) if variant % 2 == 0 else _sgen(l)
     return _agen(l) if variant % 2 == 0 else AIterator(l)
@@ -235,6 +308,7 @@ class LogGetItemSeq:
 
 def mk_log_src(src, variant: int):
     kind, l = src
+    l = dec(l)
     if kind == 0:
         return (LogSyncIter(l), LogIterable(l), LogGetItemSeq(l))[variant % 3]
     return LogAsyncIter(l) if variant % 2 == 0 else LogAsyncIterable(l)
@@ -285,12 +359,17 @@ def code_of(x):
 NAN_KEYS = [None, lambda x: NAN_OBJS[0], lambda x: 1 if x != x else 0]
 
 
+def back(x):
+    """a Python value -> its element code (None -> NONE_CODE, NaN objects -> their codes)"""
+    return NONE_CODE if x is None else _NAN_CODE.get(id(x), x)
+
+
 def enc_val(v):
     if isinstance(v, tuple) and len(v) == 2 and isinstance(v[1], list):   # groupby
-        return [code_of(v[0]), *[code_of(x) for x in v[1]]]
+        return [back(v[0]), *[back(x) for x in v[1]]]
     if isinstance(v, (tuple, list)):
-        return [NONE_CODE if x is None else x for x in v]
-    return [v]
+        return [back(x) for x in v]
+    return [back(v)]
 
 
 def enc_err(e):
@@ -434,10 +513,11 @@ FNAME = {v: k for k, v in FUNS.items()}
 
 class Case:
     """fc: function code; a: argument tuple (function specific, see encode); var: source representation variant"""
-    __slots__ = ("fc", "a", "var", "enc", "impl", "std", "impl_vals", "impl_err", "nck", "ncall", "nyield", "ncheck", "value_before_check", "loop_yielded", "npoll", "first_ev", "origin")
+    __slots__ = ("fc", "a", "var", "enc", "impl", "std", "impl_vals", "impl_err", "nck", "ncall", "nyield", "ncheck", "value_before_check", "loop_yielded", "npoll", "first_ev", "origin", "objmode", "collision")
 
     def __init__(self, fc, a, var=0, origin="exhaustive"):
         self.fc, self.a, self.var, self.origin = fc, a, var, origin
+        self.objmode = False
         self.enc = encode(fc, a)
 
     def sources(self):
@@ -487,7 +567,14 @@ class Case:
         return YIELD_CAP_DEFAULT
 
     def describe(self):
-        return {"function": FNAME[self.fc], "args": self.a, "variant": self.var, "encoded": self.enc}
+        d = {"function": FNAME[self.fc], "args": self.a, "variant": self.var, "encoded": self.enc}
+        if self.objmode:
+            d["object_mode"] = True
+            d["element_codes"] = {i: repr(o) for i, o in enumerate(OBJ_ALPHABET)}
+            d["callback_tables"] = "object-mode FN2 / PRED / KEYF / FNN of harness/c19.py (index modulo table length)"
+        elif any(NONE_CODE in l for _, l in self.sources()):
+            d["note"] = f"{NONE_CODE} stands for None"
+        return d
 
 
 def encode(fc, a):
@@ -600,6 +687,7 @@ async def run_anyio(c: Case):
         return await consume_async(lambda: ait.groupby(src_obj, amk(NAN_KEYS[a[0]])))
     if fc == 30:
         kind, l = a[2]
+        l = dec(l)
         shared = LogSyncIter(l) if kind == 0 else LogAsyncIter(l)
         if a[0] == 0:
             return await consume_async(lambda: ait.chain(ait.islice(shared, *a[1]), shared))
@@ -648,7 +736,7 @@ async def run_anyio(c: Case):
             if init is None:
                 r = await afn.reduce(reducer(FN2[f], v), mk_log_src(s, v))
             else:
-                r = await afn.reduce(reducer(FN2[f], v), mk_log_src(s, v), init)
+                r = await afn.reduce(reducer(FN2[f], v), mk_log_src(s, v), None if init == NONE_CODE else init)
             LOG.append(("y", r))
             return None
         except Exception as e:  # noqa: BLE001
@@ -708,7 +796,7 @@ def run_std(c: Case):
     """the standard library on the same arguments with the synchronous callbacks -> (values, error code)"""
     it = std_itertools
     fc, a = c.fc, c.a
-    L = lambda s: list(s[1])  # noqa: E731
+    L = lambda s: dec(s[1])  # noqa: E731
     if fc == 1:
         f, init, s = a
         if f == -1:
@@ -740,7 +828,7 @@ def run_std(c: Case):
         objs = [obj_of(x) for x in a[1][1]]
         return consume_sync(lambda: std_groupby(objs, NAN_KEYS[a[0]]))
     if fc == 30:
-        shared = iter(list(a[2][1]))
+        shared = iter(dec(a[2][1]))
         return consume_sync(lambda: it.chain(it.islice(shared, *a[1]), shared))
     if fc == 31:
         try:
@@ -775,12 +863,12 @@ def run_std(c: Case):
         try:
             if init is None:
                 return [std_functools.reduce(FN2[f], L(s))], None
-            return [std_functools.reduce(FN2[f], L(s), init)], None
+            return [std_functools.reduce(FN2[f], L(s), None if init == NONE_CODE else init)], None
         except Exception as e:  # noqa: BLE001
             return [], err_code(e)
     if fc in (23, 24, 26, 27):
         store_t, pos = (a[1], a[2]) if fc != 27 else (a[2], a[3])
-        objs = [iter(list(e[1])) for e in store_t]
+        objs = [iter(dec(e[1])) for e in store_t]
         args = [objs[i] for i in pos]
         if fc == 23:
             if a[0] is None:
@@ -792,7 +880,7 @@ def run_std(c: Case):
             return consume_sync(lambda: it.product(*args, repeat=a[0]))
         return consume_sync(lambda: it.starmap(FNN[a[0]], args))
     if fc == 25:
-        obj = iter(list(a[0][1]))
+        obj = iter(dec(a[0][1]))
         return consume_sync(lambda: it.compress(obj, obj))
     if fc == 22:
         try:
@@ -820,6 +908,7 @@ async def execute(cases: list[Case]):
 async def _execute(cases: list[Case], signal):
     for c in cases:
         LOG.clear()
+        COLLISION[0] = False
         cap = c.yield_cap()
         YIELD_CAP[0] = cap
         LOG_CAP[0] = 2_000_000 if cap == YIELD_CAP_DEFAULT else 40 * cap + 200
@@ -865,12 +954,15 @@ async def _execute(cases: list[Case], signal):
         c.impl = flat_trace(log, err)
         vals, serr = run_std(c)
         c.std = (vals, serr)
+        c.collision = COLLISION[0]
 
 
-def run_cases(cases: list[Case], real: bool = False, config: str | None = None, probe: bool = False):
+def run_cases(cases: list[Case], real: bool = False, config: str | None = None, probe: bool = False,
+              objmode: bool = False):
     """config None: plain asyncio.run; 'asyncio' / 'eager' / 'uvloop': through anyio.run on that loop configuration"""
     REAL[0] = real
     PROBE[0] = probe
+    OBJMODE[0] = objmode
     install_wrappers()
     try:
         if config is None:
@@ -895,6 +987,7 @@ def run_cases(cases: list[Case], real: bool = False, config: str | None = None, 
         remove_wrappers()
         REAL[0] = False
         PROBE[0] = False
+        OBJMODE[0] = False
 
 
 LOOP_CONFIGS = ("asyncio", "eager", "uvloop")
@@ -938,7 +1031,11 @@ def loop_probe_family(tier: str):
 # ----------------------------------------------------------------------------------------------
 # case generation
 # ----------------------------------------------------------------------------------------------
-def lists(maxlen, alphabet=ALPHABET):
+CUR_ALPHABET = [ALPHABET]
+
+
+def lists(maxlen, alphabet=None):
+    alphabet = CUR_ALPHABET[0] if alphabet is None else alphabet
     out = []
     for n in range(maxlen + 1):
         out += list(std_itertools.product(alphabet, repeat=n))
@@ -967,6 +1064,14 @@ BOUNDS = {
     "c08": dict(L=1, Lpred=1, params=(-1, 0, 1, 2), Lcomb=1, Lcompress=1, islice_params=(None, 0, 1, 2), Lislice=1,
                 Lislice_distinct=1, chain_n=2, chain_L=1, zip_n=2, zip_L=1, prod_n=2, prod_L=1, prod_rep=(0, 1), star_n=2,
                 star_L=1, cycle_L=1, cycle_k=2, count_k=1, Lacc=1, alias_L1=1, alias_L2=1, alias_L3=0, alias_self_L=1, obj_L=2, rest_L=2, rest_params=(None, 0, 1, 3)),
+    # sources over {0, 1, None}: the model's distinguished element (None-safe callbacks; accumulate / reduce with all)
+    "none": dict(L=3, Lpred=3, params=(-1, 0, 1, 2, 3), Lcomb=3, Lcompress=2, islice_params=(None, 0, 1, 2), Lislice=3,
+                 Lislice_distinct=3, chain_n=2, chain_L=2, zip_n=2, zip_L=2, prod_n=2, prod_L=1, prod_rep=(0, 1, 2), star_n=2,
+                 star_L=2, cycle_L=2, cycle_k=4, count_k=1, Lacc=3),
+    # object mode: sources over OBJ_ALPHABET (codes 0..7), stdlib differential only
+    "obj": dict(L=2, Lpred=2, params=(-1, 0, 1, 2, 3), Lcomb=2, Lcompress=1, islice_params=(None, 0, 1, 2), Lislice=2,
+                Lislice_distinct=2, chain_n=2, chain_L=1, zip_n=2, zip_L=1, prod_n=2, prod_L=1, prod_rep=(0, 1, 2), star_n=2,
+                star_L=1, cycle_L=2, cycle_k=3, count_k=1, Lacc=2),
     "thorough": dict(L=6, Lpred=7, params=(-2, -1, 0, 1, 2, 3, 4, 5, 6, 7), Lcomb=5, Lcompress=4,
                      islice_params=(None, -2, -1, 0, 1, 2, 3, 4, 5, 6, 7), Lislice=4, Lislice_distinct=7,
                      chain_n=3, chain_L=2, zip_n=3, zip_L=2, prod_n=2, prod_L=2, prod_rep=(-2, -1, 0, 1, 2, 3),
@@ -1206,6 +1311,47 @@ def run_tee_onward(tier: str):
     return cases, hits
 
 
+def none_cases(tier: str) -> list[Case]:
+    """every function over sources that contain None (the model's distinguished element), with callbacks that accept it;
+    accumulate / reduce with every callback (arithmetic on None is a TypeError in the model as in Python) and reduce with
+    None as an explicit initial value"""
+    CUR_ALPHABET[0] = (0, 1, NONE_CODE)
+    try:
+        base = exhaustive_cases("none")
+    finally:
+        CUR_ALPHABET[0] = ALPHABET
+    out = []
+    for c in base:
+        fc, a = c.fc, c.a
+        if fc in (7, 16, 22):
+            continue
+        if fc in (9, 10, 18) and a[0] not in NONE_SAFE["pred"]:
+            continue
+        if fc == 11 and a[0] not in NONE_SAFE["key"]:
+            continue
+        if fc == 17 and a[0] not in NONE_SAFE["fnn"]:
+            continue
+        c.origin = "exhaustive-none"
+        out.append(c)
+        if fc == 21 and a[1] == 0:
+            out.append(Case(21, (a[0], NONE_CODE, a[2]), c.var + 1, origin="exhaustive-none"))
+    return out
+
+
+def object_cases(tier: str) -> list[Case]:
+    """object mode (no model): every function over sources of sentinel-like values, compared with the stdlib only"""
+    CUR_ALPHABET[0] = tuple(range(len(OBJ_ALPHABET)))
+    try:
+        base = exhaustive_cases("obj")
+    finally:
+        CUR_ALPHABET[0] = ALPHABET
+    out = [c for c in base if c.fc not in (7, 16, 22, 28)]
+    for c in out:
+        c.origin = "object-mode"
+        c.objmode = True
+    return out
+
+
 def random_cases(rng: random.Random, n: int) -> list[Case]:
     out = []
 
@@ -1252,8 +1398,21 @@ def random_cases(rng: random.Random, n: int) -> list[Case]:
             a = (rng.randrange(len(FNN)), rng.randint(0, 1), tuple(rs(6) for _ in range(rng.randint(0, 8))))
         else:
             a = (ro(-5, 9), tuple(rs(10) for _ in range(rng.randint(0, 5))))
+        if fc in (1, 21, 2, 3, 4, 5, 8, 13, 14, 15, 19) and rng.random() < 0.3:
+            a = _sprinkle_none(rng, a)
         out.append(Case(fc, a, rng.randrange(1000), origin="random"))
     return out
+
+
+def _sprinkle_none(rng, a):
+    """replace some source elements by None (functions whose callbacks accept it / whose model handles it)"""
+    def sp(x):
+        if isinstance(x, tuple) and len(x) == 2 and x[0] in (0, 1) and isinstance(x[1], tuple):
+            return (x[0], tuple(NONE_CODE if rng.random() < 0.3 else e for e in x[1]))
+        if isinstance(x, tuple):
+            return tuple(sp(y) for y in x)
+        return x
+    return tuple(sp(x) if isinstance(x, tuple) else x for x in a)
 
 
 # ----------------------------------------------------------------------------------------------
@@ -1263,11 +1422,15 @@ INFINITE = (7, 8, 16)
 
 
 def canon(v):
-    if isinstance(v, list):
-        return tuple(canon(x) for x in v)
-    if isinstance(v, tuple):
-        return tuple(canon(x) for x in v)
-    return v
+    """structural comparison key that keeps equal-but-distinct values apart (False / 0 / 0.0) and compares objects whose
+    equality is unusable (NaN, Odd) by identity"""
+    if isinstance(v, (list, tuple)):
+        return (type(v).__name__ if OBJMODE[0] else "seq", tuple(canon(x) for x in v))
+    if isinstance(v, (bool, int, str, type(None))):
+        return (type(v).__name__, v)
+    if isinstance(v, float) and v == v:
+        return ("float", v)
+    return ("id", id(v))
 
 
 def monitor(c: Case) -> list[str]:
@@ -1461,7 +1624,7 @@ class TeeRun:
             res = [1, 0]
             self.blocks[c] += 1
         elif out[0] == "ok" and out[1][0] == "v":
-            res = [0, out[1][1]]
+            res = [0, back(out[1][1])]
             self.on_value(c, out[1][1])
         elif out[0] == "ok":
             res = [2, 0]
@@ -1535,7 +1698,7 @@ class TeeRun:
             self.mon.append(f"loop errors: {self.world.loop.errors[:2]}")
 
     def case(self):
-        return [2, self.mode, self.n, len(self.src), *self.src, *self.ops]
+        return [2, self.mode, self.n, len(self.src), *[back(x) for x in self.src], *self.ops]
 
     def describe(self):
         name = lambda k: "next" if k == 0 else "resume" if k == 1 else f"tee(it,{k - 1})"  # noqa: E731
@@ -1631,7 +1794,7 @@ def run_tee(tier: str, rng: random.Random, light: bool = False):
         runs = []
         if tier == "quick":
             plan = [(m, s, n, d, False) for m in (0, 1, 2) for s, n, d in
-                    (((), 2, 8), ((1,), 2, 9), ((1, 2), 2, 9), ((), 3, 6), ((1,), 3, 7), ((1, 2), 3, 7))]
+                    (((), 2, 8), ((1,), 2, 9), ((1, 2), 2, 9), ((), 3, 6), ((1,), 3, 7), ((1, 2), 3, 7), ((None, 1), 2, 8))]
             plan += [(m, s, n, d, True) for m in (0, 1, 2) for s, n, d in (((), 1, 6), ((1,), 1, 6), ((), 2, 4), ((1,), 2, 4))]
             nrand = 150
         else:
@@ -1947,13 +2110,15 @@ def check(tier: str) -> int:
 
     rng = random.Random(core.seed())
     corpus, corpus_tees = corpus_cases()
-    ex = exhaustive_cases(tier) + alias_cases(tier)
+    ex = exhaustive_cases(tier) + alias_cases(tier) + none_cases(tier)
+    objs = object_cases(tier)
     rnd = random_cases(rng, 3000 if tier == "quick" else 80000) + random_alias_cases(rng, 1500 if tier == "quick" else 20000)
     rnd_real = random_cases(rng, 1500 if tier == "quick" else 10000)
     for c in rnd_real:
         c.origin = "random-real-checkpoints"
     cases = corpus + ex + rnd
     run_cases(cases, real=False)
+    run_cases(objs, real=False, objmode=True)     # sentinel-like values: stdlib differential only (not in the model's domain)
     run_cases(rnd_real, real=True)          # the wrappers call through to the real checkpoint functions
     cases += rnd_real
     mark("run_anyio_and_stdlib")
@@ -1966,15 +2131,15 @@ def check(tier: str) -> int:
         m_out = core.run_driver(exe, [[0] + c.enc for c in chunk])
         s_out = core.run_driver(exe, [[1] + c.enc for c in chunk if c.fc not in (22, 28)])
         for c, o in zip(chunk, m_out):
-            if c.impl != o:
+            if c.impl != o and not getattr(c, "collision", False):
                 x1_bad.append((c, o))
         for c, o in zip([c for c in chunk if c.fc not in (22, 28)], s_out):
-            if flat_outcome(*c.std) != o:
+            if flat_outcome(*c.std) != o and not getattr(c, "collision", False):
                 x2_bad.append((c, o))
 
     # ---- monitors ----
     hits = []
-    for c in cases:
+    for c in cases + objs:
         for h in monitor(c):
             hits.append((c, h))
 
@@ -2005,7 +2170,7 @@ def check(tier: str) -> int:
 
     # ---- kernel-checked sample ----
     sample_n = 60 if tier == "quick" else 800
-    idx = list(range(len(cases)))
+    idx = [i for i in range(len(cases)) if not getattr(cases[i], "collision", False)]
     rng.shuffle(idx)
     idx = idx[:sample_n]
     s_in = [[0] + cases[i].enc for i in idx] + [[1] + cases[i].enc for i in idx if cases[i].fc not in (22, 28)]
@@ -2122,6 +2287,8 @@ def check(tier: str) -> int:
         "monitor_hits": len(hits) + len(tee_hits) + len(onward_hits) + len(canc_hits) + len(probe_hits),
         "loop_yield_probe": {"configurations": list(LOOP_CONFIGS), "traversals_inside_the_clause": probe_n},
         "tee_onward_cases": len(onward_cases),
+        "object_mode_cases": len(objs),
+        "object_mode_alphabet": [repr(o) for o in OBJ_ALPHABET],
         "guards": {"yield_cap_default": YIELD_CAP_DEFAULT, "alias_family_yield_cap": "elements + positions + 3",
                    "event_log_cap": "2e6 (alias family: 40 * yield cap + 200)", "watchdog_seconds_per_case": WATCHDOG_S},
         "phase_seconds": phases,
@@ -2184,7 +2351,8 @@ def replay(path: str) -> int:
         print(json.dumps(case), "\nmonitor:", [h for _, h in hits] or "silent")
         return 1 if hits else 0
     c = Case(FUNS[case["function"]], _tuplify(case["args"]), case.get("variant", 0), origin="replay")
-    run_cases([c])
+    c.objmode = bool(case.get("object_mode"))
+    run_cases([c], objmode=c.objmode)
     hits = monitor(c)
     print(json.dumps(c.describe()), "\nanyio trace:", c.impl, "\nstdlib:", c.std, "\nmonitor:", hits or "silent")
     return 1 if hits else 0
@@ -2230,7 +2398,7 @@ def c08_itertools_part(tier: str) -> dict:
     small = exhaustive_cases("c08") + alias_cases("c08")
     run_cases(small)
     m_out = core.run_driver(exe, [[0] + c.enc for c in small])
-    x1_bad = [(c, o) for c, o in zip(small, m_out) if c.impl != o]
+    x1_bad = [(c, o) for c, o in zip(small, m_out) if c.impl != o and not getattr(c, "collision", False)]
     ck_hits = [(c, h) for c in small for h in monitor(c) if "checkpoint" in h]
     if ck_hits:
         c, h = min(ck_hits, key=lambda p: len(p[0].enc))
